@@ -167,6 +167,9 @@ class SpecGen:
                 values.append((vn, o))
             if not values:
                 values = [("Only", 0)]
+            if rng.random() < 0.08 and t.underlying in ("byte", "char", "short") and "Beyond" not in [v for v, _ in values]:
+                # an ordinal the declared type cannot carry (legal: fields may override the underlying type)
+                values.append(("Beyond", limit + rng.choice([0, 1, 47])))
             if rng.random() < 0.4:
                 rng.shuffle(values)     # declaration order need not follow the ordinals
         t.values = values
@@ -221,7 +224,7 @@ class SpecGen:
         n = rng.choice([0, 1, 1, 2, 3, 4, 6]) if depth > 0 else rng.choice([1, 2, 3, 4, 6, 8])
         n = min(n, budget)
         indent = "    " * (2 + depth)
-        if depth == 0 and rng.random() < 0.06:
+        if (depth == 0 and rng.random() < 0.06) or (in_case and depth <= 2 and rng.random() < 0.08):
             # a class without constructor arguments: nothing but unnamed constants and/or a dummy
             for _ in range(rng.choice([0, 1, 2])):
                 t = rng.choice(["byte", "char", "short"])
